@@ -108,47 +108,59 @@ Section Generic.
     | t :: r => if Nat.ltb iw t then pop_while iw r else Ok b
     end.
 
+  (* index[v] = len(stack); stack.append(v); boundaries.append(index[v]) *)
+  Definition push (v : A) (st : scc_state) : scc_state :=
+    let iv := length (st_stack st) in
+    mk_st (st_ident st) (v :: st_stack st) ((v, iv) :: st_index st) (iv :: st_bounds st) (st_out st).
+
+  Definition set_bounds (st : scc_state) (b : list nat) : scc_state :=
+    mk_st (st_ident st) (st_stack st) (st_index st) b (st_out st).
+
+  (* for w in edges[v]: ...   (`rec` = the recursive call dfs(w)) *)
+  Section Visit.
+    Variable rec : A -> scc_state -> result scc_state.
+    Fixpoint visit (ws : list A) (st : scc_state) : result scc_state :=
+      match ws with
+      | [] => Ok st
+      | w :: r =>
+        match idx_get (st_index st) w with
+        | None =>
+            match rec w st with
+            | Ok st' => visit r st'
+            | e => e
+            end
+        | Some iw =>
+            if memb w (st_ident st) then visit r st
+            else match pop_while iw (st_bounds st) with
+                 | Ok b' => visit r (set_bounds st b')
+                 | Raise e => Raise e
+                 | OutOfFuel => OutOfFuel
+                 end
+        end
+      end.
+  End Visit.
+
+  (* if boundaries[-1] == index[v]: pop the component *)
+  Definition finish (iv : nat) (st2 : scc_state) : result scc_state :=
+    match st_bounds st2 with
+    | [] => Raise IndexError
+    | t :: br =>
+      if Nat.eqb t iv then
+        let k := length (st_stack st2) - iv in
+        let scc := firstn k (st_stack st2) in
+        Ok (mk_st (scc ++ st_ident st2) (skipn k (st_stack st2)) (st_index st2) br (scc :: st_out st2))
+      else Ok st2
+    end.
+
   Fixpoint dfs (fuel : nat) (E : dict) (v : A) (st : scc_state) : result scc_state :=
     match fuel with
     | O => OutOfFuel
     | S f =>
-      let iv := length (st_stack st) in
-      let st1 := mk_st (st_ident st) (v :: st_stack st) ((v, iv) :: st_index st)
-                       (iv :: st_bounds st) (st_out st) in
       match get E v with
       | None => Raise KeyError
       | Some ws =>
-        let fix visit (ws : list A) (st : scc_state) : result scc_state :=
-          match ws with
-          | [] => Ok st
-          | w :: r =>
-            match idx_get (st_index st) w with
-            | None =>
-                match dfs f E w st with
-                | Ok st' => visit r st'
-                | e => e
-                end
-            | Some iw =>
-                if memb w (st_ident st) then visit r st
-                else match pop_while iw (st_bounds st) with
-                     | Ok b' => visit r (mk_st (st_ident st) (st_stack st) (st_index st) b' (st_out st))
-                     | Raise e => Raise e
-                     | OutOfFuel => OutOfFuel
-                     end
-            end
-          end in
-        match visit ws st1 with
-        | Ok st2 =>
-          match st_bounds st2 with
-          | [] => Raise IndexError
-          | t :: br =>
-            if Nat.eqb t iv then
-              let k := length (st_stack st2) - iv in
-              let scc := firstn k (st_stack st2) in
-              Ok (mk_st (scc ++ st_ident st2) (skipn k (st_stack st2)) (st_index st2) br
-                        (scc :: st_out st2))
-            else Ok st2
-          end
+        match visit (dfs f E) ws (push v st) with
+        | Ok st2 => finish (length (st_stack st)) st2
         | e => e
         end
       end
